@@ -69,10 +69,26 @@ def run(ctx):
                 pols = pols + stateful_policies()
                 reqs = ['reqs'] + [['req', req[1], req[2], req[3], stateful_context(r)] for _ in range(6)]
         cases.append(case('c%d' % i, 'concurrent', store, req, ['policies'] + pols, tmpl, vars_, str(r.choice([4, 8, 16])), reqs))
+    # validation is a read-only operation too: shared validators, policies parsed from text, schemas with action groups
+    import schemagen
+    vcases = []
+    for i in range(40 if quick else 1500):
+        sch = schemagen.Schema(r)
+        pols = [sch.policy(r.choice([1, 2])) for _ in range(3)] + [sch.hazard_policy() for _ in range(2)]
+        # action scopes `in [..]` with 1-7 listed actions (the parser leaves spare capacity for 3, 5, 6, 7), groups included
+        acts = sorted(sch.actions) + (['grp'] if sch.group else [])
+        for k in (1, 2, 3, 5, 6, 7):
+            lst = ', '.join('Action::"%s"' % r.choice(acts) for _ in range(k))
+            pols.append(S('permit(principal, action in [%s], resource);' % lst))
+            pols.append(S('forbid(principal, action in [%s], resource) when { principal == resource };' % lst))
+        vcases.append(case('v%d' % i, 'concurrent-validate', S(sch.text()), ['policies'] + pols, sch.store(), sch.request(), str(r.choice([4, 8, 16]))))
+    cases += vcases
     ctx.rule = ('shared policy set (1-5 random or partial-evaluation-heavy policies), entity map, request, batch template with variables and '
                 'value lists; 4-16 goroutines each doing 6 rounds of authorize / batch authorize / MarshalCedar / MarshalJSON / entity-map and value '
                 'accessors / policy inspection on the shared objects under the race detector; results compared with the sequential run, inputs '
-                'snapshotted before and after (text, JSON and raw AST). non-trivial = at least two policies')
+                'snapshotted before and after (text, JSON, raw AST, and structurally with every slice extended to its capacity). Plus %d validation scenarios: '
+                'shared strict and permissive validators over generated schemas (action groups), policies parsed from text incl. action-in-list scopes of '
+                '1-7 entries, entity store and request; verdicts compared with the sequential ones. non-trivial = at least two policies' % len(vcases))
     go = lib.run_go(cases, 'concurrent', ctx.workdir, timeout_ms=120000, shards=4, binary=lib.HARNESS_RACE)
     bad = 0
     for c in cases:
